@@ -71,6 +71,11 @@ def run_case(cs):
         tree[par + rng.choice(["Cafe\u0301.mov", "Caf\u00e9.mov", "nin\u0303o.wav"])] = rng.randbytes(6)
     d = cs.dir()
     root = os.path.join(d, world.root_name(rng))
+    if rng.random() < 0.05:
+        # one file longer than any read buffer and not a multiple of it: a change in its last bytes is a change
+        par = rng.choice([""] + [k for k, v in tree.items() if v is None])
+        tree[(par + "/" if par else "") + "big-clip.mov"] = rng.randbytes((1 << 20) * rng.randint(1, 2) + rng.randint(1, 5000))
+        cs.count("trees_with_a_file_over_1MiB")
     world.write_tree(root, tree)
     if rng.random() < 0.2:
         # a second name for the same file (hard link): every name is an entry of its folder
@@ -239,9 +244,22 @@ def run_case(cs):
 
     if kind == "content":
         where = pick(files)
+        big = [x for x in files if os.path.basename(x) == "big-clip.mov"]
+        if big and rng.random() < 0.7:
+            where = big[0]
         if where:
-            with open(os.path.join(work, where), "ab") as f:
-                f.write(b"!")
+            pth = os.path.join(work, where)
+            if os.path.getsize(pth) > (1 << 20) and rng.random() < 0.6:
+                # only the last byte of the big file
+                with open(pth, "r+b") as f:
+                    f.seek(-1, 2)
+                    b0 = f.read(1)
+                    f.seek(-1, 2)
+                    f.write(bytes([b0[0] ^ 1]))
+                cs.count("content_changed_in_tail_of_big_file")
+            else:
+                with open(pth, "ab") as f:
+                    f.write(b"!")
     elif kind == "rename_file":
         where = pick(files)
         if where:
